@@ -60,7 +60,7 @@ def get_nested(x, idx):
 # ------------------------------------------------------------------------------ generator
 
 def gen_spec(rng, cls='nonrec', forced=(), max_nodes=5, max_edges=4, wdomain='real', grid=False,
-             allow_inf=True, max_nts=4, max_dom=3, typed=False):
+             allow_inf=True, max_nts=4, max_dom=3, typed=False, max_scc=3):
     forced = set(forced)
     nlab = rng.randint(1, 3)
     ltypes = None
@@ -92,7 +92,9 @@ def gen_spec(rng, cls='nonrec', forced=(), max_nodes=5, max_edges=4, wdomain='re
     elif cls == 'mixed':
         nnt = rng.randint(3, max(3, max_nts))
     else:
-        nnt = rng.randint(1, min(3, max_nts))
+        nnt = rng.randint(1, min(max_scc, max_nts))
+        if max_scc > 3 and rng.random() < 0.6:
+            nnt = rng.randint(3, min(max_scc, max_nts))
     names = ['S'] + [f'X{i}' for i in range(1, nnt)]
     nts = {}
     for i, nm in enumerate(names):
@@ -306,7 +308,12 @@ def gen_spec(rng, cls='nonrec', forced=(), max_nodes=5, max_edges=4, wdomain='re
                         rules.append(r)
                         first_rule = False
                         continue
-                rules.append(make_rule(nm, p, opts=opts))
+                nt_ = None
+                if kind in ('linear', 'nonlinear') and any(gi_of[q] == gi for q in p):
+                    # a recursive rule always carries a terminal, so that rescaling the weights can
+                    # make the recursion converge (a bare X -> X / X -> X X never does)
+                    nt_ = rng.randint(1, max(1, max_edges - len(p)))
+                rules.append(make_rule(nm, p, n_term=nt_, opts=opts))
                 first_rule = False
     # 'edgeless-ext' needs some lhs with arity>0 whose rule got the option; if none, add one
     spec = dict(domains=domains, terminals=terminals, nonterminals={n: nts[n] for n in names},
@@ -316,8 +323,22 @@ def gen_spec(rng, cls='nonrec', forced=(), max_nodes=5, max_edges=4, wdomain='re
         if cands:
             nm = cands[0]
             rules.append(make_rule(nm, [], opts={'edgeless-ext'}))
-    for u in unreachable:
-        pass  # has rules (generated above as acyclic group) but nobody refers to it
+    if 'unproductive-nt' in forced:
+        # U has no terminating rule (every rule of U mentions U), so its value is zero and every rule
+        # mentioning U is dead; U sits inside the SCC of X and X's dead rule is listed first
+        cands = [n for n in names if n not in without_rules and n not in unreachable]
+        X = rng.choice(cands)
+        U = f'U{len(names)}'
+        nts[U] = [rng.choice(labs) for _ in range(rng.choice([0, 1]))]
+        names.append(U)
+        gi_of[U] = gi_of[X]
+        spec['nonterminals'][U] = nts[U]
+        rules.append(make_rule(U, [X, U], n_term=1))
+        if rng.random() < 0.5:
+            rules.append(make_rule(U, [U], n_term=1))
+        dead = make_rule(X, [U] + ([X] if rng.random() < 0.3 else []), n_term=1)
+        first = next(i for i, r in enumerate(rules) if r['lhs'] == X)
+        rules.insert(first, dead)
     if 'many-rules' in forced and rng.random() < 0.5:
         rng.shuffle(rules)
     # ---- weights
